@@ -164,7 +164,8 @@ func (f *fallback) doFallback(ctx context.Context, qCtx *query_context.Context) 
 		if f.alwaysStandby && r != nil {
 			select {
 			case <-ctx.Done():
-			case <-primDone:
+			case <-primDone: // primary is done in time, secondary result is not needed.
+				return
 			case <-primFailed: // only send secondary result when primary is failed.
 			case <-timer.C: // or timed out.
 			}
